@@ -366,3 +366,16 @@ RULES = [
     ("C08.R9", "T2+T4", "the expected frame-count bit toggles only on delivery (shared with C07.R3)", r9),
     ("C08.R10", "T2/T3", "the assembler is popped only when its fragment is returned; read() returns after recording a link-layer message", r10),
 ]
+
+
+def r11(ctx):
+    """'delivers exactly what was segmented': the segments reach the assembler through the link parser - a frame that follows line
+    noise (or whose leading bytes came with the previous read) is still found (C06.R7), and the payload handed up is exactly the
+    blocks of that frame, cleared per frame and pushed only after each block's CRC test (C06.R3). A segment lost or padded there is a
+    fragment lost or corrupted here. Shared code."""
+    import c06
+    c06.r7(ctx)
+    c06.r3(ctx)
+
+
+RULES.append(("C08.R11", "T2/T3", "segments survive the link parser: discard-mode recovery loses no frame, the payload is exactly the frame's blocks (shared with C06.R7, C06.R3)", r11))
